@@ -280,7 +280,7 @@ theorem wrapper_facts_ok :
 theorem limits_ok : Verif.Gen.ApiFacts.limits =
     ["css.cssMinifier.minifyProperty: 100 < len(values)", "css.cssMinifier.minifyTokens: 100 < c.tokensLevel + 1",
      "js.binaryNumber: 65 < len(b)", "js.jsMinifier.hoistVars: 10000 < len(decl.List)",
-     "js.mergeBinaryExpr: 50 < len(strings)", "js.replaceEscapes: 0x10FFFF <= num", "js.replaceEscapes: num < 256",
+     "js.mergeBinaryExpr: 50 < len(strings)", "js.replaceEscapes: num < 256",
      "minify.Mediatype: i - lastString < 1024", "svg.PathData.ShortenPathData: 100000 < len(b)"] := by decide
 
 end Api
